@@ -240,6 +240,12 @@ func (in *Interp) structInto(p *Plan, src reflect.Value, dst reflect.Value) erro
 // source evaluates the source expression of a field plan.
 func (in *Interp) source(fp *FieldPlan, src reflect.Value) (reflect.Value, error) {
 	if fp.Whole {
+		if fp.AddrOf {
+			if !src.CanAddr() {
+				src = addressable(src)
+			}
+			return src.Addr(), nil
+		}
 		return src, nil
 	}
 	cur := src
